@@ -1,11 +1,11 @@
 #!/bin/sh
 # usage: tools/seedpipe.sh <table> [id-regex]  -- table lines: id|seed_dir|worktree|place|demo|checks
-# confirm each listed seed (tools/confirmseed.sh) and run the quick checks on it (tools/tryseed2.sh); logs in /var/tmp/seedG-logs
-mkdir -p /var/tmp/seedG-logs
+# confirm each listed seed (tools/confirmseed.sh) and run the quick checks on it (tools/tryseed2.sh); logs in ${SEEDLOGS:-/var/tmp/seedG-logs}
+mkdir -p ${SEEDLOGS:-/var/tmp/seedG-logs}
 grep -E "^${2:-.}" "$1" | while IFS='|' read -r id sd wt place demo checks; do
   [ -n "$id" ] || continue
-  /verif/tools/confirmseed.sh "$sd" "$id" "$wt" "$place" "$demo" > /var/tmp/seedG-logs/$id.confirm 2>&1
+  /verif/tools/confirmseed.sh "$sd" "$id" "$wt" "$place" "$demo" > ${SEEDLOGS:-/var/tmp/seedG-logs}/$id.confirm 2>&1
   n=$(echo "$id" | tr -d '-')
-  /verif/tools/tryseed2.sh "$sd/patch.diff" "s$n" $checks > /var/tmp/seedG-logs/$id.try 2>&1
-  echo "== $id: $(tail -1 /var/tmp/seedG-logs/$id.confirm)"; grep -E "^RESULT|^VIOLATION" /var/tmp/seedG-logs/$id.try | head -4
+  /verif/tools/tryseed2.sh "$sd/patch.diff" "s$n" $checks > ${SEEDLOGS:-/var/tmp/seedG-logs}/$id.try 2>&1
+  echo "== $id: $(tail -1 ${SEEDLOGS:-/var/tmp/seedG-logs}/$id.confirm)"; grep -E "^RESULT|^VIOLATION" ${SEEDLOGS:-/var/tmp/seedG-logs}/$id.try | head -4
 done
